@@ -135,7 +135,7 @@ impl<B: FA> Air for GenAir<B> {
             .collect();
         let (aux_degrees, num_aux_assertions, lagrange_idx) = match &desc.aux {
             Some(a) => (
-                a.cols.iter().map(|(kind, _)| TransitionConstraintDegree::new(if *kind == 0 { 1 } else { 2 })).collect(),
+                a.cols.iter().map(|(kind, _)| TransitionConstraintDegree::new(*kind as usize + 1)).collect(),
                 a.cols.len(),
                 if a.lagrange { Some(a.width() - 1) } else { None },
             ),
@@ -238,7 +238,8 @@ impl<B: FA> Air for GenAir<B> {
             result[j] = if *kind == 0 {
                 anext[j] - acur[j] - r.mul_base(mcur[*c])
             } else {
-                anext[j] - acur[j] * (E::from(mcur[*c]) + r)
+                // product column of degree kind + 1: next = cur * (main + r)^kind
+                anext[j] - acur[j] * (E::from(mcur[*c]) + r).exp_vartime(E::PositiveInteger::from(*kind as u32))
             };
         }
     }
@@ -347,7 +348,7 @@ pub fn build_aux<B: FA, E: FieldElement<BaseField = B>>(desc: &Desc, main: &ColM
         let mut v = aux_init(rands, j);
         col.push(v);
         for s in src.iter().take(n - 1) {
-            v = if *kind == 0 { v + r.mul_base(*s) } else { v * (E::from(*s) + r) };
+            v = if *kind == 0 { v + r.mul_base(*s) } else { v * (E::from(*s) + r).exp_vartime(E::PositiveInteger::from(*kind as u32)) };
             col.push(v);
         }
         columns.push(col);
